@@ -366,6 +366,29 @@ def make_diamond(mite_hits: List[Dict[str, Any]]) -> Callable:
     return fake
 
 
+_LAYOUT_JUNK: List[Any] = []
+
+
+def _layout_step(inv: Dict[str, Any], fake: Callable) -> Callable:
+    """ "Any memory layout" while the run proceeds: every call of an external tool is a point where a real
+        process has allocated and freed memory (pipes, output buffers, parsing).  Here a number of small
+        objects decided by the schedule's salt and the call count is allocated (and an older batch freed), so
+        which freed addresses later allocations reuse differs between schedules - and only between schedules:
+        with salt 0 nothing happens. """
+    salt = int(inv.get("salt", 0))
+    calls = [0]
+
+    def wrapper(*args: Any, **kwargs: Any) -> Any:
+        calls[0] += 1
+        if salt:
+            count = (salt // (7 * calls[0] + 1)) % 29
+            _LAYOUT_JUNK.append([([], {}, (calls[0], i)) for i in range(count)])
+            if len(_LAYOUT_JUNK) > 3:
+                del _LAYOUT_JUNK[0]
+        return fake(*args, **kwargs)
+    return wrapper
+
+
 class SimClock:
     """ The only clock the invocation reads """
 
@@ -389,8 +412,8 @@ def _install(inv: Dict[str, Any]) -> None:
     idhash.install(int(inv.get("salt", 0)))
     main.check_prerequisites = lambda *args, **kwargs: None
     main._log_found_executables = lambda options: None  # pylint: disable=protected-access
-    cluster_prediction.run_hmmsearch = make_hmmsearch(inv.get("hits", []))
-    fake_scan = make_hmmscan(inv.get("domain_hits", {}))
+    cluster_prediction.run_hmmsearch = _layout_step(inv, make_hmmsearch(inv.get("hits", [])))
+    fake_scan = _layout_step(inv, make_hmmscan(inv.get("domain_hits", {})))
     subprocessing.run_hmmscan = fake_scan
     hmmscan_module.run_hmmscan = fake_scan
     real_lengths = utils.get_hmm_lengths
